@@ -42,6 +42,12 @@ fn gen(t: Tier, _seed: u64, emit: &mut dyn FnMut(Case)) {
         for n in huge_lengths(bits).into_iter().filter(|n| *n <= 17000).step_by(2) {
             emit(Case::Shape { cid, n, s: n % 2, ph: 0, n2: 2, s2: 1 });
         }
+        // item counts around 2^16 (a position or step counter narrowed to 16 bits wraps here; a type's width is
+        // not a literal the driver's constant scan can see); 3 * 2^16 for chunks(3); the iterators are generic, so the
+        // narrowest and a wide codec stand for all
+        for n in [65_539usize, 196_613].into_iter().filter(|_| bits == 2 || bits == 6) {
+            emit(Case::Shape { cid, n, s: n % 2, ph: 0, n2: 2, s2: 1 });
+        }
         let spw = 64 / bits;
         for n in [0usize, 1, 2, 3, 5, 7, spw + 1] {
             for w in [1usize, 2, 3, n, n + 1] {
